@@ -1,0 +1,22 @@
+//go:build verif
+
+// Verification hooks (build tag "verif"): the process-wide time-stamper of this package is created once
+// and kept; an external harness that runs many configurations in one process needs to drop it.
+// Add-only; not compiled into normal builds.
+
+package signinit
+
+// VerifResetTimestamper forgets the cached time-stamper, so that the next GetTimestamper call builds
+// one from the then-current configuration (exactly what the first call of a fresh process does).
+func VerifResetTimestamper() {
+	mu.Lock()
+	defer mu.Unlock()
+	ts = nil
+}
+
+// VerifHaveTimestamper reports whether a time-stamper is currently cached.
+func VerifHaveTimestamper() bool {
+	mu.Lock()
+	defer mu.Unlock()
+	return ts != nil
+}
